@@ -29,6 +29,7 @@ type HarnessOpts struct {
 	Use           []string
 	Workers       int
 	AssertWorkers int
+	BudgetS       int
 	SyncAsserts   bool
 }
 
@@ -135,6 +136,9 @@ func newHarnessRun(name string, fn *ssa.Function, prog *ssa.Program, opts Harnes
 	}
 	if r.opts.TimeoutS == 0 {
 		r.opts.TimeoutS = 60
+	}
+	if r.opts.BudgetS == 0 {
+		r.opts.BudgetS = 600
 	}
 	if r.opts.MaxConc == 0 {
 		r.opts.MaxConc = 64
@@ -748,13 +752,16 @@ func (r *HarnessRun) check(e *Exec, kind, label string, cond *Term) {
 }
 
 type workQueue struct {
-	mu      sync.Mutex
-	cond    *sync.Cond
-	items   []workItem
-	active  int
-	paths   int
-	max     int
-	stopped bool
+	mu       sync.Mutex
+	cond     *sync.Cond
+	items    []workItem
+	active   int
+	paths    int
+	max      int
+	stopped  bool
+	start    time.Time
+	budget   time.Duration
+	timedOut bool
 }
 
 type workItem struct {
@@ -784,6 +791,11 @@ func (q *workQueue) pop() (workItem, bool) {
 			return workItem{}, false
 		}
 		if len(q.items) > 0 {
+			if q.budget > 0 && time.Since(q.start) > q.budget {
+				q.stopped, q.timedOut = true, true
+				q.cond.Broadcast()
+				return workItem{}, false
+			}
 			if q.paths >= q.max {
 				q.stopped = true
 				q.cond.Broadcast()
@@ -813,6 +825,8 @@ func (q *workQueue) done() {
 // runAll explores all paths with `workers` shards sharing one work queue.
 func (r *HarnessRun) runAll(workers int) {
 	q := newWorkQueue(r.opts.MaxPaths)
+	q.start = time.Now()
+	q.budget = time.Duration(r.opts.BudgetS) * time.Second
 	shards := []*HarnessRun{r}
 	for i := 1; i < workers; i++ {
 		sh := newHarnessRun(r.Name, r.fn, r.prog, r.opts)
@@ -863,7 +877,9 @@ func (r *HarnessRun) runAll(workers int) {
 			s.log = append(s.log, ss.notes...)
 		}
 	}
-	if q.stopped {
+	if q.timedOut {
+		r.incon = append(r.incon, fmt.Sprintf("time budget %ds exhausted after %d paths with %d prefixes pending", r.opts.BudgetS, q.paths, len(q.items)))
+	} else if q.stopped {
 		r.incon = append(r.incon, fmt.Sprintf("path limit %d reached with %d prefixes pending", r.opts.MaxPaths, len(q.items)))
 	}
 	// merge shards into r
